@@ -45,7 +45,9 @@ def add_ssl(reg):
     for cls in ('Socket', 'SSLSocket'):
         reg.contract('<env>', cls + '.setblocking', params={'flag': 'bool'}, self_cls=cls, assumed=True,
                      modifies=[], raises={})
-    reg.contracts['SSLContext.wrap_socket'].result = ('opaque', 'SSLSocket')
+    from pyvc.engine import SpecFun
+    reg.specfuns['isinst_SSLSocket'] = SpecFun('isinst_SSLSocket', [('opaque', 'Socket')], 'bool')
+    reg.contracts['SSLContext.wrap_socket'].ensures.append(('tls', 'isinst_SSLSocket(result)'))
 
 
 def build(reg):
@@ -64,7 +66,7 @@ def build(reg):
                  ('hostname-checked-unless-disabled',
                   '(verify_mode != 0 and not isnone(hostname)) ==> (hs_check_hostname and hs_server_hostname == hostname)'),
                  ('trust-store', 'hs_cafile == ca_file'),
-                 ('upgraded', 'not isnone(self._conn)')],
+                 ('upgraded', 'not isnone(self._conn) and isinst_SSLSocket(self._conn)')],
         raises={'ssl.SSLError': [('one-handshake', 'handshakes == old(handshakes) + 1')],
                 'OSError': [('one-handshake', 'handshakes == old(handshakes) + 1')]}))
     fl = dict(reg.classes['Flags']['fields'])
@@ -76,13 +78,16 @@ def build(reg):
         'request': ('obj', 'HttpParser'), 'flags': ('obj', 'Flags')})
     T.append(reg.contract(
         SV, 'HttpProxyPlugin.wrap_server', self_cls='HttpProxyPlugin', ghost_init=HS, result='bool',
-        requires=[('upstream', 'not isnone(self.upstream) and not isnone(self.upstream._conn)')],
+        requires=[('upstream', 'not isnone(self.upstream) and not isnone(self.upstream._conn) and '
+                               'not isinst_SSLSocket(self.upstream._conn)'),
+                  ('connect-target', 'not isnone(self.request.host) and len(self.request.host) > 0')],
         modifies=['self.upstream._conn'],
         ensures=[('verified-unless-operator-disabled',
                   '(not result and not self.flags.insecure_tls_interception) ==> '
                   '(hs_verify_mode == 2 and hs_check_hostname and hs_cafile == self.flags.ca_file and '
                   ' not isnone(self.request.host) and hs_server_hostname == utf8dec(self.request.host))'),
                  ('handshake-happened', 'not result ==> handshakes == old(handshakes) + 1'),
+                 ('reachable-success', 'True'),
                  ('insecure-only-on-request', 'self.flags.insecure_tls_interception or result or hs_verify_mode == 2')],
         raises={'OSError': [], 'UnicodeDecodeError': [('no-handshake', 'handshakes == old(handshakes)')],
                 'AssertionError': []}))
